@@ -4,10 +4,10 @@ from checks import unitscheck
 
 MENUS = {
     'quick': [
-        ('badtypes', ['tA', 'tB', 'tM', 'tA2', 'tA2_dup', 'tA2_dup2', 'tA1', 'tA_dupsym', 'ka', 'm_ka_ka'], 5),
+        ('badtypes', ['tA', 'tB', 'tM', 'tA2', 'tA2_dup', 'tA2_dup2', 'tA1', 'tA_dupsym', 'ka', 'm_ka_ka'], 6),
         ('badunits', ['tA', 'tB', 'tAB', 'ka', 'a_dup', 'ka_dupB', 'empty', 'nonstr', 'xb_wrongtype', 'bad_dim',
-                      'arity', 'wrongorder', 'onbase', 'kab'], 5),
-        ('badnoref', ['tA', 'tM', 'tMpA', 'p', 'p_dup', 'ppa', 'ppka', 'q'], 6),
+                      'arity', 'wrongorder', 'onbase', 'kab'], 6),
+        ('badnoref', ['tA', 'tM', 'tMpA', 'p', 'p_dup', 'ppa', 'ppka', 'q'], 7),
     ],
     'thorough': [
         ('badtypes', ['tA', 'tB', 'tM', 'tA2', 'tA2_dup', 'tA2_dup2', 'tA1', 'tA_dupsym', 'ka', 'm_ka_ka', 'ka2', 'tAB'], 7),
